@@ -514,6 +514,14 @@ def run(rep, tier):
         boot.fold_mini(rep, d)
         laws += d["extra"].get("laws", 0)
         validated += d["extra"].get("validated", 0)
+    # wire names (E-X over the emitted package): the original name stays the wire name for result fields, aliased result fields,
+    # input fields and variables, snake case on and off
+    from vlib import xh
+
+    WM = "harness.C18_wire"
+    xres = xh.run_targets([f"{WM}.check_wire_names_snake", f"{WM}.check_wire_names_plain", f"{WM}.check_operation_names", f"{WM}.twin_wire_keyword_input_reached"], timeout=300)
+    xh.fold(rep, WM, xres)
+    rep.coverage["wire_name_harness"] = [{"target": r.target.rsplit(".", 1)[-1], "status": r.status, "paths": r.paths, "wall_s": round(r.wall, 1)} for r in xres]
     rep.coverage.update({
         "explanation": f"bounded-string SMT over all GraphQL names [_A-Za-z][_0-9A-Za-z]* of length <= {N} (idempotence: <= {N_idem}); kernels translated from current source; laws L1-L5, L7 per role",
         "obligations": laws, "kernels": [f"{sp['role']}/snake={sp['snake']}" for sp in specs], "encoding_validation_agreements": validated,
